@@ -2490,8 +2490,16 @@ class Network:
             network = Network([])
         if recycles: 
             recycle_networks = [Network(*i) for i in cyclic_paths_with_recycle]
-            for recycle_network in recycle_networks:
-                network.join_recycle_network(recycle_network)
+            while recycle_networks:
+                # A recycle network may only overlap with the network through a
+                # recycle network that comes later in the list; retry it afterwards.
+                deferred = []
+                for recycle_network in recycle_networks:
+                    try: network.join_recycle_network(recycle_network)
+                    except ValueError: deferred.append(recycle_network)
+                if len(deferred) == len(recycle_networks):
+                    raise ValueError('networks must have units in common to join')
+                recycle_networks = deferred
         ends.update(network.streams)
         disjunction_streams = set([i.get_stream() for i in disjunctions])
         for feed in feeds:
